@@ -39,6 +39,8 @@ REQUIRED_THEOREMS = [
     "adaptive_terminates", "adaptive_finishes_exact_or_floor", "eulerAdaptive_finishes_exact_or_floor",
     "rk4Times_extracted", "rkfTimes_extracted", "ab2Times_extracted", "fixedStepper_callTimes",
     "shrinks_ctlOf", "adaptive_terminates_ctlOf",
+    "adaptiveStepper_stage_times", "eulerAdaptiveStepper_stage_times", "adaptiveStepper_rkf45_stage_times",
+    "adaptiveStepper_richardson_stage_times",
 ]
 EXTRA_PROP_FILES = ["C06Gen"]  # theorems that need no ordered field (any arithmetic / any field), stage times of whole calls
 
